@@ -175,8 +175,16 @@ def check_threshold(ctx, f, c, role):
     n = f.strip_all_casts(c)
     o = f.nodes[n]
     form = None
+    # a comparison through the standard function objects on built-in operands is the operator itself
+    STD_CMP = {'std::less_equal': '<=', 'std::less': '<', 'std::greater': '>', 'std::greater_equal': '>=', 'std::equal_to': '=='}
+    if o['cls'] == 'CXXOperatorCallExpr' and o.get('op') == '()' and len(f.call_args(n)) == 2:
+        from ..facts import short as _short
+        ck = _short((f.callee(n) or {}).get('cls', ''))
+        if ck in STD_CMP and all((f.ntype(a) or {}).get('s', '').replace('const ', '').strip() in ('int', 'long', 'unsigned int', 'unsigned long', 'short', 'long long')
+                                 for a in [f.strip_all_casts(x) for x in f.call_args(n)]):
+            o = dict(o, cls='BinaryOperator', op=STD_CMP[ck], kids=list(f.call_args(n)))
     if o['cls'] == 'BinaryOperator' and o.get('op') in ('<=', '<', '>', '>=', '=='):
-        l, r = f.kids(n)
+        l, r = o['kids'] if o is not f.nodes[n] else f.kids(n)
         ls, rs = f.strip_all_casts(l), f.strip_all_casts(r)
 
         def dec_of(x):
